@@ -82,6 +82,7 @@ type Exec struct {
 	stableCache  []*ssa.Global
 	roInit       map[string]Term // reference (constant term) of a read-only package variable -> its initialiser
 	frameEvals, minRegionsAtFrame int
+	regionTypes  map[string]types.Type // heap region -> Go type of its objects / elements
 	storeDefs    map[string][3]string // named heap term -> (array, index, value) of the store it names
 	roElems      map[string]map[int64]Term // read-only array globals: element terms by constant index
 	uremSeen     map[string]bool
